@@ -10,7 +10,7 @@ git reset -q
 OUT=$(mktemp -d /tmp/vseed.XXXXXX)
 git diff --stat > $OUT/log.txt
 if git diff --quiet; then echo "patch left no change in /repo"; rm -rf $OUT; exit 9; fi
-VERIF_OUT=$OUT /verif/check $ID $TIER >> $OUT/log.txt 2>&1
+VERIF_BUILD=/tmp/seedbuild VERIF_OUT=$OUT /verif/check $ID $TIER >> $OUT/log.txt 2>&1
 rc=$?
 git -C /repo checkout -- .
 grep -E -A2 "^VIOLATION|^HARNESS|^BUILD|^NOTE" $OUT/log.txt | cut -c1-260 | head -12
